@@ -1,6 +1,7 @@
 use crate::error::Error;
 use crate::error::Error::{InvalidArgs, InvalidSyntax};
 use crate::number::{Exactness, Number};
+use num::BigRational;
 use crate::vm::builtin::{pop_argc, pop_integer, pop_number, pop_string, pop_usize};
 use crate::vm::vcell::VCell;
 use crate::vm::Vm;
@@ -138,11 +139,75 @@ fn num_unary_predicate(
     Ok(predicate(&x).into())
 }
 
+/// The running result of a variadic + or *.
+///
+/// The operators of Number fall back to a float when an exact result does not fit the
+/// representation of its operands. In the middle of a variadic operation that is too
+/// early: a later operand may bring the result back into range - (* 1/65536 65536 65536)
+/// is 65536 - and a fallback that overflows to an infinity turns into a NaN later on. From
+/// the first step that loses exactness, the exact operands are therefore combined in
+/// arbitrary precision, and the result is narrowed once, at the end or when an inexact
+/// operand arrives.
+struct Fold {
+    product: bool,
+    result: Number,
+    wide: Option<BigRational>,
+}
+
+impl Fold {
+    fn new(product: bool) -> Fold {
+        Fold {
+            product,
+            result: Number::from(if product { 1 } else { 0 }),
+            wide: None,
+        }
+    }
+
+    fn push(&mut self, num: Number) {
+        if let Some(wide) = self.wide.take() {
+            match num.to_big_rational().filter(|_| num.is_exact()) {
+                Some(num) => {
+                    self.wide = Some(if self.product { wide * num } else { wide + num });
+                    return;
+                }
+                None => self.result = Number::from_big_rational(wide),
+            }
+        }
+        let next = if self.product {
+            &self.result * &num
+        } else {
+            &self.result + &num
+        };
+        if self.result.is_exact() && num.is_exact() && !next.is_exact() {
+            if let (Some(lhs), Some(rhs)) = (self.result.to_big_rational(), num.to_big_rational()) {
+                self.wide = Some(if self.product { lhs * rhs } else { lhs + rhs });
+                return;
+            }
+        }
+        self.result = next;
+    }
+
+    /// The exact value carried in arbitrary precision, or the result as a Number.
+    fn finish(self) -> Result<BigRational, Number> {
+        match self.wide {
+            Some(wide) => Ok(wide),
+            None => Err(self.result),
+        }
+    }
+
+    fn finish_number(self) -> Number {
+        match self.finish() {
+            Ok(wide) => Number::from_big_rational(wide),
+            Err(num) => num,
+        }
+    }
+}
+
 pub fn plus(vm: &mut Vm) -> Result<VCell, Error> {
     let argc = pop_argc(vm, 0, None, "+")?;
-    let mut sum = Number::from(0);
+    let mut sum = Fold::new(false);
     for _ in 0..argc {
-        sum += match vm.heap.get(vm.stack.pop()?) {
+        sum.push(match vm.heap.get(vm.stack.pop()?) {
             VCell::Number(n) => n,
             vcell => {
                 return Err(InvalidArgs(
@@ -151,16 +216,16 @@ pub fn plus(vm: &mut Vm) -> Result<VCell, Error> {
                     vm.heap.get_as_cell(&vcell).to_string(),
                 ));
             }
-        }
+        })
     }
-    Ok(sum.into())
+    Ok(sum.finish_number().into())
 }
 
 pub fn minus(vm: &mut Vm) -> Result<VCell, Error> {
     let argc = pop_argc(vm, 1, None, "-")?;
-    let mut result = Number::from(0);
+    let mut rest = Fold::new(false);
     for _ in 0..(argc - 1) {
-        result += match vm.heap.get(vm.stack.pop()?) {
+        rest.push(match vm.heap.get(vm.stack.pop()?) {
             VCell::Number(n) => n,
             vcell => {
                 return Err(InvalidArgs(
@@ -169,12 +234,30 @@ pub fn minus(vm: &mut Vm) -> Result<VCell, Error> {
                     vm.heap.get_as_cell(&vcell).to_string(),
                 ));
             }
-        }
+        })
     }
 
-    if let VCell::Number(n) = vm.heap.get(vm.stack.pop()?) {
-        result = n - result;
-    }
+    let first = vm.heap.get(vm.stack.pop()?);
+    let mut result = match (first, rest.finish()) {
+        // the sum of the rest is carried in arbitrary precision: subtract there
+        (VCell::Number(n), Ok(rest)) => match n.to_big_rational().filter(|_| n.is_exact()) {
+            Some(n) => Number::from_big_rational(n - rest),
+            None => n - Number::from_big_rational(rest),
+        },
+        (VCell::Number(n), Err(rest)) => {
+            let difference = &n - &rest;
+            match (n.to_big_rational(), rest.to_big_rational()) {
+                (Some(wide), Some(rest_wide))
+                    if n.is_exact() && rest.is_exact() && !difference.is_exact() =>
+                {
+                    Number::from_big_rational(wide - rest_wide)
+                }
+                _ => difference,
+            }
+        }
+        (_, Ok(rest)) => Number::from_big_rational(rest),
+        (_, Err(rest)) => rest,
+    };
 
     if argc == 1 {
         result *= Number::from(-1);
@@ -185,9 +268,9 @@ pub fn minus(vm: &mut Vm) -> Result<VCell, Error> {
 
 pub fn multiply(vm: &mut Vm) -> Result<VCell, Error> {
     let argc = pop_argc(vm, 0, None, "*")?;
-    let mut result = Number::from(1);
+    let mut product = Fold::new(true);
     for _ in 0..argc {
-        result *= match vm.heap.get(vm.stack.pop()?) {
+        product.push(match vm.heap.get(vm.stack.pop()?) {
             VCell::Number(n) => n,
             vcell => {
                 return Err(InvalidArgs(
@@ -196,9 +279,9 @@ pub fn multiply(vm: &mut Vm) -> Result<VCell, Error> {
                     vm.heap.get_as_cell(&vcell).to_string(),
                 ));
             }
-        }
+        })
     }
-    Ok(VCell::Number(result))
+    Ok(VCell::Number(product.finish_number()))
 }
 
 pub fn divide(vm: &mut Vm) -> Result<VCell, Error> {
